@@ -17,6 +17,14 @@ Cep(order, salt, budget) ==
   IN [m \in 1..order |-> IF m = 1 THEN ((Mix(salt, order, 1) % 9) - 4) * 16            \* c_0 in -1..1
                          ELSE IF m = 2 /\ salt % 4 = 3 THEN 0                                    \* a cepstrum whose first-order term is exactly zero
                          ELSE IF tot = 0 THEN 0 ELSE (IF r[m] < 0 THEN -1 ELSE 1) * ((Abs(r[m]) * budget) \div tot)]
+\* "tilt" cepstra (salts 4, 5; postfilter cases): nearly the whole budget on the first order (+ for salt 4, - for salt 5), a small second
+\* order of negative sign, a small third one.  Sharpening orders >= 2 LOWERS the energy of such a response (the spectral peak sits where
+\* cos(2 theta) = 1 and c_2 < 0), so the order-0 compensation has to raise the gain - the opposite of the usual case.
+CepTilt(order, salt, budget) ==
+  [m \in 1..order |-> IF m = 1 THEN ((Mix(salt, order, 1) % 9) - 4) * 16
+                       ELSE IF m = 2 THEN (IF salt % 2 = 0 THEN 1 ELSE -1) * (budget - 20)
+                       ELSE IF m = 3 THEN -12
+                       ELSE IF m = 4 THEN 8 ELSE 0]
 SumSq(s) == LET RECURSIVE F(_) F(t) == IF t = {} THEN 0 ELSE LET x == CHOOSE y \in t : TRUE IN x * x + x + F(t \ {x}) IN F(s)
 DecSeq(s) == LET RECURSIVE F(_) F(t) == IF t = {} THEN <<>> ELSE LET x == CHOOSE y \in t : \A z \in t : y >= z IN <<x>> \o F(t \ {x}) IN F(s)
 LspGrid == {-8, -6, -4, -2, 0, 2, 4, 6, 8}
@@ -33,7 +41,8 @@ Next == /\ c.kind = "none"
                    c' = [kind |-> "mcep", c64 |-> Cep(o, s, Budget(s)), alpha |-> a, rate |-> r, beta8 |-> 0]
            \/ /\ Mode = "post"
               /\ \E o \in Orders, s \in Salts, a \in Alphas, r \in Rates, b \in Betas :
-                   c' = [kind |-> "post", c64 |-> Cep(o, s, (Budget(s) * 8) \div (8 + b)), alpha |-> a, rate |-> r, beta8 |-> b]
+                   c' = [kind |-> "post", c64 |-> IF s >= 4 THEN CepTilt(o, s, (128 * 8) \div (8 + b)) ELSE Cep(o, s, (Budget(s) * 8) \div (8 + b)),
+                         alpha |-> a, rate |-> r, beta8 |-> b]
            \/ /\ Mode = "lsp"
               /\ \E m \in Orders, sa \in Salts, a \in Alphas, r \in Rates, st \in Stages :
                  \E s \in SUBSET (-7..7) :
